@@ -122,7 +122,93 @@ def namings(tier):
         yield n
 
 
+# ---- family D: destructor bodies. A destructor runs wherever the last reference disappears - in the middle of some other function's
+# body - and its bare names must still mean the dying object's fields (and its own locals), never the locals of that function.
+D_BODIES = [   # destructor bodies; {dL} is a local of the destructor
+    "{F2} = {F2} + 1; echo(\"bye \" + {F1} + \" \" + {F2});",
+    "int {dL} = {F1} * 2; echo({dL}); echo({F2});",
+    "echo(bump(3)); {F1} = 0;",
+]
+D_DEATHS = [   # ways for an Acc to die while the locals {P}/{L} of the surrounding body are live; {V} is an int expression over them
+    "{{ Acc a = new Acc({V}); echo(\"in\"); }}",
+    "Acc a = new Acc(5); a = new Acc({V}); echo(\"re\");",
+    "Acc a = new Acc({V}); a = null; echo(\"nulled\");",
+    "Acc a = new Acc({V}); destroy a; echo(\"destroyed\");",
+    "echo(new Acc(9).bump({V}));",
+    "for (int i9 = 0; i9 < 2; i9 = i9 + 1) {{ Acc a = new Acc({V} + i9); }}",
+]
+D_SLOTS = ["F1", "F2", "dL", "uP", "uL", "hP", "hL", "H1"]
+D_UNIQUE = {"F1": "fieldOne", "F2": "fieldTwo", "dL": "locD", "aP": "argB", "uP": "argU", "uL": "locU", "hP": "argH", "hL": "locH", "H1": "holdOne", "H2": "holdTwo", "mA": "mainA", "mB": "mainB"}
+
+
+def render_d(names, dbody, death):
+    d = dict(names)
+    src = """class Acc {{
+    public int {F1} = 1;
+    public int {F2} = 2;
+    public constructor(int {aP}) -> Acc {{ this.{F1} = {aP}; }}
+    public destructor() -> void {{ %s }}
+    public function bump(int {aP}) -> int {{ return {F1} + {aP}; }}
+}}
+class Holder {{
+    public int {H1} = 50;
+    public int {H2} = 60;
+    public constructor() -> Holder = default;
+    public function run(int {hP}) -> int {{ int {hL} = 70; %s return {H1} + {hL} + {hP}; }}
+}}
+function audit(int {uP}) -> int {{ int {uL} = 40; %s return {uL} + {uP}; }}
+function main() -> void {{
+    int {mA} = 10;
+    int {mB} = 20;
+    echo(audit({mA}));
+    Holder hold = new Holder();
+    echo(hold.run({mB}));
+    %s
+    echo({mA});
+    echo({mB});
+    echo(hold.{H1});
+    echo(hold.{H2});
+}}
+""" % (dbody, death.replace("{V}", "{hL}"), death.replace("{V}", "{uL}"), death.replace("{V}", "{mB}"))
+    return src.format(**d)
+
+
+def namings_d():
+    for combo in itertools.product(POOL, repeat=len(D_SLOTS)):
+        n = dict(zip(D_SLOTS, combo))
+        if n["F1"] == n["F2"] or n["dL"] in (n["F1"], n["F2"]) or n["uP"] == n["uL"] or n["hP"] == n["hL"] or n["H1"] in (n["hP"], n["hL"]):
+            continue
+        n["aP"] = n["dL"]                                   # bump's parameter: distinct from both fields
+        n["H2"] = next(x for x in POOL + ["w"] if x not in (n["H1"], n["hP"], n["hL"]))
+        n["mA"], n["mB"] = n["F1"], n["F2"]                 # main's locals are named like Acc's fields on purpose
+        yield n
+
+
+def _one_d(item):
+    (ib, idth), name_list = item
+    ref_src = render_d(D_UNIQUE, D_BODIES[ib], D_DEATHS[idth])
+    r0 = vdrv.run_src(ref_src, gc="own", warn=0)
+    if r0.crash or r0.rec is None or r0.rec.get("status") != "ok":
+        return ("D", ib, idth), [("reference", ref_src, "the uniquely named variant did not run: %s %s" % (r0.status(), (r0.rec or {}).get("msg", r0["fd2"][:200])))], 1, None
+    want = (r0.rec["status"], r0.rec["stdout"])
+    out, n = [], 1
+    for names in name_list:
+        src = render_d(names, D_BODIES[ib], D_DEATHS[idth])
+        r = vdrv.run_src(src, gc="own", warn=0)
+        n += 1
+        if r.crash:
+            out.append((names, src, "interpreter died: %s" % r.crash))
+            continue
+        got = (r.rec.get("status"), r.rec.get("stdout", ""))
+        if got != want:
+            out.append((names, src, "renaming locals/parameters changed the behaviour: with unique names the program prints %r, with names %s it gives %s %r %s" % (
+                want[1], {k: v for k, v in names.items()}, got[0], got[1], r.rec.get("msg", ""))))
+    return ("D", ib, idth), out, n, want[1]
+
+
 def _one(item):
+    if item[0][0] == "D":
+        return _one_d((item[0][1:], item[1]))
     (i1, i2, i3, ic), name_list = item
     m1, m2, fb, calls = M1_BODIES[i1], M2_BODIES[i2], F_BODIES[i3], CALLS[ic]
     ref_src = render(UNIQUE, m1, m2, fb, calls)
@@ -160,11 +246,19 @@ def main(tier):
     for c in combos:
         nl = [n for n in allnames if valid(n, M1_BODIES[c[0]], M2_BODIES[c[1]]) and (not n.get("familyB") or c[3] >= 7)]
         if tier != "thorough":
-            nl = [n for i, n in enumerate(nl) if n.get("familyB") or i % 6 == 0]
+            nl = [n for i, n in enumerate(nl) if n.get("familyB") or i % 10 == 0]
         # split large groups so that workers stay busy
         for i in range(0, len(nl), 250):
             items.append((c, nl[i:i + 250]))
             total += len(nl[i:i + 250])
+    # family D (destructors): every destructor body x way of dying x naming
+    dn = list(namings_d())
+    for ib in range(len(D_BODIES)):
+        for idth in range(len(D_DEATHS)):
+            for i in range(0, len(dn), 250):
+                items.append((("D", ib, idth), dn[i:i + 250]))
+                total += len(dn[i:i + 250])
+    items.sort(key=lambda it: 0 if it[0][0] == "D" else 1)      # the small family first: it completes even if the deadline cuts the rest
     outs = set()
     nruns = 0
     done = 0
@@ -179,7 +273,7 @@ def main(tier):
             if refout is not None:
                 outs.add((combo, refout))
             for names, src, p in bad:
-                collide = sorted(k for k in ("aP", "bL", "fP", "fL", "mA", "mB") if isinstance(names, dict) and names.get(k) in (names.get("F1"), names.get("F2")))
+                collide = sorted(k for k in ("aP", "bL", "fP", "fL", "mA", "mB", "uP", "uL", "hP", "hL", "dL") if isinstance(names, dict) and names.get(k) in (names.get("F1"), names.get("F2")))
                 ck.violation("variant:%s:%s" % (combo, ",".join(collide) if isinstance(names, dict) else names), "%s\nprogram:\n%s" % (p, src),
                              {"tool": "vdrv", "job": {"kind": "run", "opts": {"gc": "own", "warn": 0}, "blobs": {"src": src}}})
     ck.sample({"unique": render(UNIQUE, M1_BODIES[0], M2_BODIES[0], F_BODIES[0], CALLS[7])})
@@ -187,4 +281,4 @@ def main(tier):
     ck.assumptions += ["a naming is an alpha-variant iff within each body no local/parameter carries the name of a field that body refers to barely (then the bare name would lexically mean the local)",
                        "main's object variables k and j keep fixed names outside the pool"]
     ck.finish({"evaluations": nruns, "distinct_nontrivial": len(outs), "rule": "all capture-free assignments of pool names {x,y,n} to the name slots x body/call combinations; distinct = distinct (combination, reference output) pairs",
-               "combinations": len(combos), "name_assignments": total})
+               "combinations": len(combos) + len(D_BODIES) * len(D_DEATHS), "destructor_family_namings": len(dn), "name_assignments": total})
